@@ -4,7 +4,7 @@ import Proofs.ExprLexemes
 
 A source text is presented as a list of `Piece`s: a lexeme with the whitespace written in front of it.
 `lexRun_pieces`: when every separator is whitespace and every lexeme `fits` what follows it, the scanner
-returns exactly the tokens of the lexemes (`tokensOf`), which do not depend on the separators.
+returns exactly the tokens of the lexemes (`lexemeToks`), which do not depend on the separators.
 -/
 
 set_option linter.unusedSimpArgs false
@@ -24,9 +24,9 @@ def Piece.src : List Piece → Bytes
   | p :: ps => p.ws ++ p.text ++ Piece.src ps
 
 /-- what the scanner returns for a sequence of lexemes: their tokens up to the first literal out of range -/
-def tokensOf : List (Rule × Bytes) → List ETok × Option (Res LexErr Unit)
+def lexemeToks : List (Rule × Bytes) → List ETok × Option (Res LexErr Unit)
   | [] => ([], none)
-  | x :: xs => consTok (mkTok x.1 x.2) (tokensOf xs)
+  | x :: xs => consTok (mkTok x.1 x.2) (lexemeToks xs)
 
 def Piece.lexeme (p : Piece) : Rule × Bytes := (p.rule, p.text)
 
@@ -80,8 +80,8 @@ theorem lexRun_spaces (w rest : Bytes) (hw : isSpaces w = true) (hr : headOK (fu
   | nil => rfl
   | cons c t =>
     simp only [isSpaces, List.all_cons, Bool.and_eq_true] at hw
-    have hstep : step ((c :: t) ++ rest) = some (.rSpace, (c :: t).length) := by
-      rw [List.cons_append, step_space c _ hw.1, spanLen_append _ _ _ hw.2, spanLen_headOK _ _ hr]
+    have hstep : lexStep ((c :: t) ++ rest) = some (.rSpace, (c :: t).length) := by
+      rw [List.cons_append, lexStep_space c _ hw.1, spanLen_append _ _ _ hw.2, spanLen_headOK _ _ hr]
       simp
     rw [lexRun_append (c :: t) rest .rSpace (by simp) hstep]
     rfl
@@ -93,14 +93,14 @@ theorem src_append (ps qs : List Piece) : Piece.src (ps ++ qs) = Piece.src ps ++
 
 /-- **the scanner on well-spaced pieces** returns the tokens of the lexemes, whatever the separators are -/
 theorem lexRun_pieces (ps : List Piece) (h : WellSpaced ps) :
-    lexRun (Piece.src ps) = tokensOf (ps.map Piece.lexeme) := by
+    lexRun (Piece.src ps) = lexemeToks (ps.map Piece.lexeme) := by
   induction ps with
   | nil => rfl
   | cons p ps ih =>
     obtain ⟨hw, hl, hf, hrest⟩ := h
-    simp only [Piece.src, List.map_cons, tokensOf, Piece.lexeme, List.append_assoc]
+    simp only [Piece.src, List.map_cons, lexemeToks, Piece.lexeme, List.append_assoc]
     rw [lexRun_spaces _ _ hw (hl.head_not_space _),
-      lexRun_append p.text _ p.rule hl.ne_nil (step_lexeme _ _ _ hl hf), ih hrest]
+      lexRun_append p.text _ p.rule hl.ne_nil (lexStep_lexeme _ _ _ hl hf), ih hrest]
 
 /-! ## From tokens to the parse -/
 
@@ -127,7 +127,7 @@ def semiPiece (w : Bytes) : Piece := ⟨w, .rAny, [59]⟩
 theorem lexeme_semi : Lexeme .rAny [59] := Lexeme.punct 59 (by decide)
 
 theorem parseSource_pieces (ps : List Piece) (w : Bytes) (h : WellSpaced (ps ++ [semiPiece w])) :
-    parseSource (Piece.src ps ++ w) = parseOfLex (tokensOf (ps.map Piece.lexeme ++ [(.rAny, [59])])) := by
+    parseSource (Piece.src ps ++ w) = parseOfLex (lexemeToks (ps.map Piece.lexeme ++ [(.rAny, [59])])) := by
   rw [parseSource_eq]
   have : Piece.src ps ++ w ++ [59] = Piece.src (ps ++ [semiPiece w]) := by
     rw [src_append]; simp [Piece.src, semiPiece]
